@@ -62,6 +62,18 @@ func (e ExitReason) GetHostCallID() uint8 {
 	return uint8(e)
 }
 
+// hostCallExit builds the exit reason of `ecalli` for the (sign-extended, at most 4 byte) immediate id.
+// Only the low 32 bits are kept in the payload, so the reason-type tag is never touched;
+// GetHostCallIndex restores the full 64-bit identifier by sign extension.
+func hostCallExit(id uint64) ExitReason {
+	return ExitHostCall | ExitReason(uint32(id))
+}
+
+// GetHostCallIndex returns the full host-call identifier requested by `ecalli`.
+func (e ExitReason) GetHostCallIndex() uint64 {
+	return uint64(int64(int32(uint32(e))))
+}
+
 func (e ExitReason) GetPageFaultAddress() uint32 {
 	return uint32(e)
 }
